@@ -9,6 +9,7 @@ import (
 
 	"github.com/gopcua/opcua/debug"
 	"github.com/gopcua/opcua/errors"
+	"github.com/gopcua/opcua/simhook"
 	"github.com/gopcua/opcua/stats"
 	"github.com/gopcua/opcua/ua"
 	"github.com/gopcua/opcua/uasc"
@@ -48,6 +49,7 @@ func (c *Client) Subscribe(ctx context.Context, params *SubscriptionParameters, 
 	stats.Subscription().Add("Count", 1)
 
 	// start the publish loop if it isn't already running
+	simhook.Yield("client.Subscribe.beforeResume")
 	c.resumech <- struct{}{}
 
 	sub := &Subscription{
@@ -349,6 +351,7 @@ func (c *Client) notifySubscription(ctx context.Context, sub *Subscription, noti
 // pauseSubscriptions suspends the publish loop by signalling the pausech.
 // It has no effect if the publish loop is already paused.
 func (c *Client) pauseSubscriptions(ctx context.Context) {
+	simhook.Yield("client.pauseSubscriptions")
 	select {
 	case <-ctx.Done():
 	case c.pausech <- struct{}{}:
@@ -358,6 +361,7 @@ func (c *Client) pauseSubscriptions(ctx context.Context) {
 // resumeSubscriptions restarts the publish loop by signalling the resumech.
 // It has no effect if the publish loop is not paused.
 func (c *Client) resumeSubscriptions(ctx context.Context) {
+	simhook.Yield("client.resumeSubscriptions")
 	select {
 	case <-ctx.Done():
 	case c.resumech <- struct{}{}:
@@ -372,6 +376,7 @@ func (c *Client) monitorSubscriptions(ctx context.Context) {
 
 publish:
 	for {
+		simhook.Yield("client.publishLoop")
 		select {
 		case <-ctx.Done():
 			dlog.Println("ctx.Done()")
@@ -423,6 +428,7 @@ func (c *Client) publish(ctx context.Context) error {
 	// send the next publish request
 	// note that res contains data even if an error was returned
 	res, err := c.sendPublishRequest(ctx)
+	simhook.Yield("client.publish.afterSend")
 	stats.RecordError(err)
 	switch {
 	case err == io.EOF:
